@@ -418,6 +418,18 @@ func (c15) Run(c *Ctx, i int) CaseResult {
 			res.Counters = map[string]int{"model_compared": 1}
 		}
 	}
+	// L2: the front of the handler (method, content type, GET parameters) against Http.parseReq
+	if c.Drv != nil && !hc.Playground && hc.Form == nil && hc.Files == nil && ct != "multipart/form-data" &&
+		(hc.Method != "POST" || !(ct == "application/json" || ct == "text/plain" || ct == "")) && hc.Method != "HEAD" && hc.Method != "OPTIONS" {
+		if d := httpFrontDiff(c, f, hc, rec.Code, shape, entries); d != "" {
+			bad("L2.http-front", d)
+		} else {
+			if res.Counters == nil {
+				res.Counters = map[string]int{}
+			}
+			res.Counters["front_model_compared"]++
+		}
+	}
 	if i%307 == 0 || i < 3 {
 		res.Sample = map[string]interface{}{"request": hc, "status": rec.Code, "shape": shape, "service_calls": calls}
 	}
@@ -439,6 +451,62 @@ func httpModelDiff(c *Ctx, f *Fed, hc HTTPCase, status int, shape string, entrie
 		}
 		return ""
 	}
+	return httpRespondDiff(c, f, ans, status, shape, entries)
+}
+
+// httpFrontDiff: the front of the handler (method, content type, GET parameters) against Http.parseReq, then the
+// handler's decisions as for POST
+func httpFrontDiff(c *Ctx, f *Fed, hc HTTPCase, status int, shape string, entries []map[string]interface{}) string {
+	param := func(s string, firstValueOnly bool) map[string]interface{} {
+		var v interface{}
+		var err error
+		if firstValueOnly {
+			// json.Decoder.Decode reads one value and does not look at what follows it
+			err = json.NewDecoder(strings.NewReader(s)).Decode(&v)
+		} else {
+			err = json.Unmarshal([]byte(s), &v)
+		}
+		return map[string]interface{}{"valid": err == nil, "json": v}
+	}
+	get := map[string]interface{}{}
+	if u, err := url.Parse(hc.Target); err == nil {
+		q := u.Query()
+		if vs, ok := q["query"]; ok {
+			get["query"] = vs[0]
+		}
+		if vs, ok := q["operationName"]; ok {
+			get["operationName"] = vs[0]
+		}
+		if vs, ok := q["variables"]; ok {
+			get["variables"] = param(vs[0], false)
+		}
+		if vs, ok := q["extensions"]; ok {
+			get["extensions"] = param(vs[0], true)
+		}
+	}
+	ct := strings.SplitN(hc.ContentType, ";", 2)[0]
+	ctype := "unknown"
+	if ct == "application/json" || ct == "text/plain" || ct == "" {
+		ctype = "json"
+	}
+	var body interface{}
+	valid := json.Unmarshal([]byte(hc.Body), &body) == nil
+	ans, err := c.Drv.Call(map[string]interface{}{"op": "http-req-parse", "method": hc.Method, "ctype": ctype, "get": get,
+		"body": map[string]interface{}{"valid": valid, "json": body}})
+	if err != nil {
+		return "harness: " + err.Error()
+	}
+	if ans["err"] != nil {
+		want := int(numOf(ans["err"]))
+		if status != want || shape != "entry" {
+			return fmt.Sprintf("the model refuses the request with %d and one errors entry; the handler answered %d %s", want, status, shape)
+		}
+		return ""
+	}
+	return httpRespondDiff(c, f, ans, status, shape, entries)
+}
+
+func httpRespondDiff(c *Ctx, f *Fed, ans map[string]interface{}, status int, shape string, entries []map[string]interface{}) string {
 	ops := ans["ops"].([]interface{})
 	var items []interface{}
 	for _, o := range ops {
